@@ -31,6 +31,11 @@ OUTSIDE = ["the 5000-row pre-allocation cap", "finiteness / dtype preservation o
 REGIONS_DOC = {}
 
 
+ASSUMPTIONS = list(globals().get("ASSUMPTIONS", [])) + [
+    "callback-sets-dt instances: after every step a callback assigns the working step g with |dt0| <= g <= 256 (steps only get longer)",
+]
+
+
 def instances(tier):
     out = []
     N = 3 if tier == "quick" else 5
